@@ -147,15 +147,19 @@ def run_case(case, tier="quick", src_root=None):
         cx.counter.clear()
         reset_alloc()
         natives._pow_fns.clear()
+        loader.modules.clear()
+        loader.libs.clear()
 
     def thunk():
         cx.path_id = len(syms_by_path)
         I = Interp(cx, loader)
         state["I"] = I
         I.overflow_checks = case.overflow
+        I.extra_libs = dict(case.libs)
         f, owner, mod = resolve_target(I, case.target)
         qual = f.qualname if isinstance(f, Func) else case.target
         I.contracts[qual] = {"loops": case.loops}
+        I.contracts[case.target] = {"loops": case.loops}
         for q, loops in case.helper_loops.items():
             I.contracts[q] = {"loops": loops}
         for q, cc in case.call_contracts.items():
@@ -188,11 +192,23 @@ def run_case(case, tier="quick", src_root=None):
             if hit:
                 cond = I.eval_spec(case.raises[hit[0]], senv)
                 cx.oblige(f"{base}::raises_only_if[{hit[0]}]", cond, "exceptional-post")
-            elif any(e in mro for e in case.may_raise):
+            elif any(e in mro for e in case.may_raise) or any(e in mro for e in case.exc_ensures):
                 pass
             else:
                 cx.oblige(f"{base}::no_unexpected_exception[{ename}]", False, "exceptional-post",
                           {"exception": ename, "args": str(r.exc.attrs.get("args"))[:200]})
+            for e, posts in case.exc_ensures.items():
+                if e not in mro:
+                    continue
+                senv.vars["exc"] = r.exc
+                for label, ens in posts:
+                    out = ens(I, senv) if callable(ens) else I.eval_spec(ens, senv)
+                    if isinstance(out, list):
+                        for sub, g in out:
+                            cx.oblige(f"{base}::on[{e}].ensures[{label}.{sub}]", g, "exceptional-post")
+                    else:
+                        cx.oblige(f"{base}::on[{e}].ensures[{label}]", out, "exceptional-post")
+                break
             return ("raise", ename)
         # normal return
         for e, cond in case.raises.items():
